@@ -325,3 +325,58 @@ def redfield_foerster(cx, N, remainder):
         linalg.use_eigh(eigen_equation=False)
     RT = RedfieldFoersterRelaxationTensor(ham, sbi)
     trace_and_herm(cx, "R", RT._data)
+
+
+def _rep4(S, R):
+    return numpy.einsum("ia,jb,ijkl,kc,ld->abcd", S, S, R, S, S)
+
+
+@harness("C01", "secularize_in_context",
+         quick=[dict(kind="generic"), dict(kind="td")], thorough=[dict(kind=k) for k in ("generic", "data", "td")],
+         functions=[F_REL + ":RelaxationTensor.secularize", F_SEC + ":Secular._secularize_data",
+                    F_TDR + ":TDRedfieldRelaxationTensor.secularize",
+                    "quantarhei/core/managers.py:eigenbasis_of.__enter__",
+                    "quantarhei/utils/types.py:basis_managed_array_property"],
+         bound="N=2: a tensor built outside any context (arbitrary with the identities; time-dependent with 2 time "
+               "indices) is secularized as the FIRST access inside eigenbasis_of(H) (H given by its "
+               "eigen-decomposition): inside, kept elements equal those of the tensor's representation in that "
+               "basis and all others are zero ('in every basis')",
+         out="N>=3")
+def secularize_in_context(cx, kind):
+    import quantarhei as qr
+    from quantarhei.qm.liouvillespace.relaxationtensor import RelaxationTensor
+    from quantarhei.qm import TDRedfieldRelaxationTensor
+    from harness.common import spectral_hamiltonian
+    N = 2
+    H, w, S = spectral_hamiltonian(cx, N)
+    with cx.concrete():
+        ham = qr.Hamiltonian(data=numpy.diag(numpy.arange(N, dtype=float)))
+    ham._data = H.copy()
+    R0 = tensor_with_identities(cx, N)
+    if kind == "td":
+        ham2, sbi, time = build_sbi(cx, N, 1)
+        RT = TDRedfieldRelaxationTensor(ham2, sbi, initialize=False)
+        R1 = tensor_with_identities(cx, N, "Q")
+        RT._data = numpy.array([R0, R1])
+        RT.Nt = 2
+        RT._data_initialized = True
+        RT.as_operators = False
+        site = [R0, R1]
+    else:
+        RT = RelaxationTensor()
+        RT.dim = N
+        RT._data = R0.copy()
+        RT._data_initialized = True
+        site = [R0]
+    with qr.eigenbasis_of(ham):
+        Sx = qr.Manager().basis_transformations[-1]
+        if kind == "data":
+            RT.secularize(legacy=False)
+        else:
+            RT.secularize()
+        inside = RT.data
+        for t, Rs in enumerate(site):
+            cur = inside[t] if kind == "td" else inside
+            expect = _rep4(Sx, Rs)
+            secular_shape(cx, "inside.t%d" % t, cur, expect)
+            trace_and_herm(cx, "inside.t%d" % t, cur)
